@@ -625,6 +625,11 @@ fn twin_tz(r: &mut Rng) {
         Rule { std: 12600, dst: 16200, start: RD::J(80), st: 86400, end: RD::J(264), et: 86400 },                 // hour 24
         Rule { std: 20700, dst: 24300, start: RD::M(5, 3, 3), st: 5400, end: RD::M(8, 2, 5), et: 1830 },          // odd offsets and times
     ];
+    // day-of-year rules reaching into every month (one cell of a cumulative month table is only exercised by a day in that month)
+    for (a, b) in [(15u32, 200u32), (45, 230), (75, 260), (100, 290), (130, 320), (160, 350)] {
+        rules.push(Rule { std: 3600, dst: 7200, start: RD::Z(a), st: 7200, end: RD::Z(b), et: 10800 });
+        rules.push(Rule { std: -21600, dst: -18000, start: RD::J(a + 1), st: 7200, end: RD::J(b + 1), et: 7200 });
+    }
     for _ in 0..6 {
         let std = ((r.next() % 97) as i32 - 48) * 900; let d = if r.next() % 4 == 0 { -3600 } else { [1800, 3600, 7200][(r.next() % 3) as usize] };
         let (m1, m2) = (2 + (r.next() % 4) as u32, 8 + (r.next() % 4) as u32);
